@@ -499,6 +499,29 @@ func (w *World) Do(s Step) {
 		w.mergeAll(r, s.M)
 	case "Reopen":
 		w.reopen(r, s.Loaders)
+	case "Plant":
+		// a history nobody's git-bug wrote, as a remote-tracking ref of a bug of its own: one commit whose tree lacks the creation clock
+		au := w.author(r, "u1")
+		w.unix++
+		op := bug.NewCreateOp(au, w.unix, fmt.Sprintf("planted on %s", s.R), "nobody wrote this with git-bug", nil)
+		raw, err := json.Marshal(op)
+		hx.Must(err)
+		blob, err := json.Marshal(map[string]interface{}{"author": map[string]string{"id": au.Id().String()}, "ops": []json.RawMessage{raw}})
+		hx.Must(err)
+		empty, err := r.repo.StoreData([]byte{})
+		hx.Must(err)
+		bh, err := r.repo.StoreData(blob)
+		hx.Must(err)
+		th, err := r.repo.StoreTree([]repository.TreeEntry{{ObjectType: repository.Blob, Hash: empty, Name: "version-4"},
+			{ObjectType: repository.Blob, Hash: bh, Name: "ops"}, {ObjectType: repository.Blob, Hash: empty, Name: "edit-clock-1"}})
+		hx.Must(err)
+		ch, err := r.repo.StoreCommit(th)
+		hx.Must(err)
+		id := entity.DeriveId(raw)
+		hx.Must(r.repo.UpdateRef("refs/remotes/"+s.M+"/bugs/"+id.String(), ch))
+		w.opNo[sha(raw)] = len(w.opNo) + 1
+		_, n := w.bugOfRef("refs/bugs/" + id.String())
+		w.emit(&Event{Ev: "Plant", M: s.M, B: n}, r)
 	case "ClockLeap":
 		// the replica witnesses an edit time far above its own: what reading a bug created on a replica that far ahead does
 		c, err := r.repo.GetOrCreateClock("bugs-edit")
